@@ -235,6 +235,12 @@ func cmdCheck(args []string) int {
 			reports = append(reports, rep)
 			continue
 		}
+		if len(c.OnlyCallers) > 0 {
+			rep := CheckCallers(P, fn, c)
+			mu.Lock()
+			reports = append(reports, rep)
+			mu.Unlock()
+		}
 		if len(c.SQLTexts) > 0 {
 			// a proved function whose callee contracts assume the meaning of its SQL: the statements are pinned too
 			rep := CheckSQLPins(P, fn, c)
